@@ -13,4 +13,7 @@ cp specs/*.tla "$tmp"/
 for f in "$tmp"/*.tla; do
   (cd "$tmp" && tla-sany "$(basename "$f")" >"$tmp/sany.out" 2>&1) || { cat "$tmp/sany.out"; echo "SANY failed on $f"; exit 1; }
 done
+# binding self-test of the Shuttermint trace layer (corrupt one logged field -> expected monitor)
+/verif/bin/vcheck selftest >"$tmp/selftest.out" 2>&1 || { cat "$tmp/selftest.out"; echo "binding self-test failed"; exit 1; }
+grep "selftest ok" "$tmp/selftest.out"
 echo "setup ok"
